@@ -82,10 +82,10 @@ def run_scanner(cls_name: str, cfg_name: str, cfg_kwargs: dict[str, Any], model:
         import os
         from pathlib import Path
 
-        import gallia.db.handler as dbh
-        from vf.engine import dbshim
+        import gallia.db.handler  # noqa: F401
+        from vf.engine import seams
 
-        dbh.aiosqlite = dbshim  # type: ignore[attr-defined]
+        seams.patch_gallia(db=True)
         d = Path(f"/dev/shm/vf-scan-{os.getppid()}")
         d.mkdir(parents=True, exist_ok=True)
         dbp = d / f"scan-{os.getpid()}.sqlite"
